@@ -192,6 +192,13 @@ SkipScaler ==
   /\ pc = "Scale" /\ pc' = "Upd0"
   /\ UNCHANGED <<cfg, chain, nit, nfev, njev, nit0, n0, f0r, x, fx, fAt, gAt, pg, memo, mem, matsOf,
                  ls, task, success, calls, lastCb, snap, npts, gen, fgen, uphill, fault, out>>
+\* a deviation a real trace may show (never taken by the design): the scaler invoked AFTER the initial update function;
+\* followed so that the rest of the trace is judged, and reported by the trace clause C17_ScalerBeforeUpdate
+CallScalerLate ==
+  /\ pc \in {"Filter0", "Mem0"} /\ calls.scaler = 0 /\ calls.upd > 0
+  /\ calls' = [calls EXCEPT !.scaler = @ + 1]
+  /\ UNCHANGED <<cfg, chain, pc, nit, nfev, njev, nit0, n0, f0r, x, fx, fAt, gAt, pg, memo, mem, matsOf,
+                 ls, task, success, lastCb, snap, npts, gen, fgen, uphill, fault, out>>
 CallUpd0 ==
   /\ pc = "Upd0"
   /\ calls' = [calls EXCEPT !.upd = @ + 1]
